@@ -38,7 +38,7 @@ Step(e) ==
   CASE e.a = "Submit"     -> Submit(e.k)
     [] e.a = "AddL"       -> AddL(e.l, e.n)
     [] e.a = "RemL"       -> RemL(e.l, e.n)
-    [] e.a = "WhenDisc"   -> WhenDisc
+    [] e.a = "WhenDisc"   -> WhenDisc(e.k)
     [] e.a = "BeginReply" -> BeginReply(e.cls, e.sh)
     [] e.a = "BeginEvent" -> BeginEvent(e.n, e.sh)
     [] e.a = "Line"       -> Line
